@@ -105,6 +105,19 @@ pub fn corruptions() -> Vec<Corruption> {
         Corruption { name: "native token denom with a trailing newline", apply: |m, _| m.native_chain_config.token_denom = "utia\n".into(), section: S_NATIVE },
         Corruption { name: "native token denom with a non-ASCII letter", apply: |m, _| m.native_chain_config.token_denom = "uti\u{e4}".into(), section: S_NATIVE },
         Corruption { name: "staked-asset denom padded with a space", apply: |m, _| m.protocol_chain_config.ibc_token_denom = format!(" ibc/{}", "C".repeat(64)), section: S_PROTOCOL },
+        Corruption { name: "staked-asset denom of 68 bytes with a two-byte character across byte 4", apply: |m, _| m.protocol_chain_config.ibc_token_denom = format!("ibc\u{e9}{}", "C".repeat(63)), section: S_PROTOCOL },
+        Corruption { name: "staked-asset denom of 68 bytes with a four-byte character across byte 4", apply: |m, _| m.protocol_chain_config.ibc_token_denom = format!("ib\u{1F600}{}", "C".repeat(62)), section: S_PROTOCOL },
+        Corruption { name: "channel with a two-byte character across byte 8", apply: |m, _| m.protocol_chain_config.ibc_channel_id = "channel\u{e9}1".into(), section: S_PROTOCOL },
+        Corruption { name: "channel with a multi-byte digit", apply: |m, _| m.protocol_chain_config.ibc_channel_id = "channel-\u{ff11}\u{ff12}".into(), section: S_PROTOCOL },
+        Corruption { name: "LST sub-denom with a two-byte character across byte 3", apply: |m, _| m.liquid_stake_token_denom = "um\u{e9}lkTIA".into(), section: 0 },
+        Corruption { name: "native token denom of three letters and a two-byte character", apply: |m, _| m.native_chain_config.token_denom = "uti\u{e9}".into(), section: S_NATIVE },
+        Corruption { name: "native prefix with a four-byte character", apply: |m, _| m.native_chain_config.account_address_prefix = "cel\u{1F600}".into(), section: S_NATIVE },
+        Corruption { name: "protocol prefix with a two-byte character", apply: |m, _| m.protocol_chain_config.account_address_prefix = "osm\u{f6}".into(), section: S_PROTOCOL },
+        Corruption { name: "staker with a two-byte character after the prefix", apply: |m, w| m.native_chain_config.staker_address = format!("{}\u{e9}{}", w.np, &w.staker[w.np.len() + 1..]), section: S_NATIVE },
+        Corruption { name: "staker with a multi-byte character across the end of the prefix", apply: |m, w| m.native_chain_config.staker_address = format!("{}\u{1F600}{}", &w.np[..w.np.len() - 1], &w.staker[w.np.len() + 3..]), section: S_NATIVE },
+        Corruption { name: "treasury with a two-byte last character", apply: |m, w| m.protocol_fee_config.treasury_address = Some(format!("{}\u{e9}", &w.treasury[..w.treasury.len() - 2])), section: S_FEE },
+        Corruption { name: "monitor made of multi-byte characters only", apply: |m, _| m.monitors = vec!["\u{1F600}".repeat(11)], section: S_MONITORS },
+        Corruption { name: "validator with a two-byte character across the end of the validator prefix", apply: |m, w| m.native_chain_config.validators = vec![format!("{}\u{e9}{}", &w.vp[..w.vp.len() - 1], &w.val1[w.vp.len() + 1..])], section: S_NATIVE },
         Corruption { name: "LST sub-denom empty", apply: |m, _| m.liquid_stake_token_denom = "".into(), section: 0 },
     ]
 }
@@ -160,6 +173,9 @@ pub fn matrix_case(cfg: CfgSpec, idx: usize) -> Case {
                     batch_period: None,
                 };
                 let r = chain.execute(&who.admin.clone(), &[], mk(&bad, false));
+                if let crate::world::Tx::Panic(p) = &r {
+                    symcore::prove(&format!("C16:no panic [{}]", crate::step::panic_key(p)), "false".into());
+                }
                 claim(f, &format!("C14:UpdateConfig refuses: {}", c.name), !r.is_ok());
                 claim(f, "C14:a refused update changes nothing", dump(&chain.deps.storage) == before);
                 let r2 = chain.execute(&who.admin.clone(), &[], mk(&good, false));
